@@ -821,13 +821,14 @@ func ruleR11f(c *Ctx, r *Report) {
 			}
 		}
 	})
-	if it == nil && len(fn.AnonFuncs) == 1 {
-		it = fn.AnonFuncs[0]
+	if it == nil && len(closuresOf(fn)) == 1 {
+		it = closuresOf(fn)[0]
 	}
 	if it == nil {
 		r.Undec(key, c.Pos(fn.Pos()), "iterator function not found")
 		return
 	}
+	it = unwrapForwarder(it)
 	// the store of the record into the output slice (or an append to it)
 	var sink ssa.Instruction
 	eachInstr(it, func(in ssa.Instruction) {
@@ -866,6 +867,66 @@ func ruleR11f(c *Ctx, r *Report) {
 		}
 	}
 	r.Check(bad == "", key, c.Pos(fn.Pos()), "every record visited is copied, iteration never stops early", bad)
+}
+
+// unwrapForwarder: when it does nothing but hand (a part of) its argument to a function value it
+// captured and return that call's answer — the adapter a shared walking helper puts between the
+// tree and its caller's visitor — the visitor; otherwise it.
+func unwrapForwarder(it *ssa.Function) *ssa.Function {
+	for depth := 0; depth < 3; depth++ {
+		rets := returnsOf(it)
+		if len(rets) != 1 || len(rets[0].Results) != 1 {
+			return it
+		}
+		call, ok := rets[0].Results[0].(*ssa.Call)
+		if !ok || call.Common().IsInvoke() || call.Common().StaticCallee() != nil {
+			return it
+		}
+		// nothing else with an effect in the adapter
+		effects := 0
+		eachInstr(it, func(in ssa.Instruction) {
+			switch in.(type) {
+			case *ssa.Store, *ssa.MapUpdate, *ssa.Send, *ssa.Go, *ssa.Defer:
+				effects++
+			case *ssa.Call:
+				if in != ssa.Instruction(call) {
+					if _, isB := in.(*ssa.Call).Call.Value.(*ssa.Builtin); !isB {
+						effects++
+					}
+				}
+			}
+		})
+		if effects > 0 {
+			return it
+		}
+		v := call.Common().Value
+		if l, ok := v.(*ssa.UnOp); ok && l.Op == token.MUL {
+			v = l.X
+		}
+		var bound ssa.Value
+		if fv, ok := v.(*ssa.FreeVar); ok {
+			bound = freeVarBinding(fv)
+		}
+		if bound == nil {
+			return it
+		}
+		// the captured cell holds the visitor
+		var t *ssa.Function
+		if al, ok := bound.(*ssa.Alloc); ok {
+			for _, st := range storesTo(al) {
+				if tt := funcValueTarget(st.Val); tt != nil {
+					t = tt
+				}
+			}
+		} else {
+			t = funcValueTarget(bound)
+		}
+		if t == nil || t.Blocks == nil {
+			return it
+		}
+		it = t
+	}
+	return it
 }
 
 func ruleR11g(c *Ctx, r *Report) {
